@@ -86,7 +86,7 @@ func (c12) Run(e *Env) {
 	prov := &scriptedProvider{gate: NewGate("provider"), batch: e.Range(1, 4)}
 	lim := rate.NewLimiter(rate.Inf, 1)
 	if e.Chance(1, 4) {
-		lim = rate.NewLimiter(rate.Limit(20), 1)
+		lim = rate.NewLimiter(rate.Limit(200), 1) // 5 ms apart: well above the worst-case refresh demand (4 sources x 20 ticks/s), so the dispatcher is never permanently saturated
 	}
 	ccp := cloudprovider.NewCachedCloudProvider(logrus.StandardLogger(), lim, prov, opts)
 	st := NewRecStatser()
